@@ -15,3 +15,8 @@ template void TS::add<ZN>(const ZBound &);
 template ZBound TS::get_next<ZN>(const ZBound &) const;
 template ZBound TS::get_prev<ZN>(const ZBound &) const;
 template ZInterval ZInterval::widening_thresholds<TS>(const ZInterval &, const TS &) const;
+// rational bounds against integer thresholds (convert_bounds rounds the rational DOWN before the search)
+typedef ikos::q_number QN;
+typedef ikos::bound<QN> QBound;
+template QBound TS::get_next<QN>(const QBound &) const;
+template QBound TS::get_prev<QN>(const QBound &) const;
